@@ -18,6 +18,7 @@ import (
 	"github.com/onflow/crypto/simrt"
 
 	"verifsim/choice"
+	"verifsim/curve"
 	"verifsim/racelog"
 	"verifsim/engine"
 )
@@ -42,7 +43,7 @@ type op struct {
 // couples the batch-verification lists contain.
 type recipe struct {
 	nk, nm   int
-	derived  []int // per derived key: 0 aggregated(a,b), 1 removed(a+b+c, c), 2 threshold key share
+	derived  []int // per derived key: 0 aggregated(a,b), 1 removed(a+b+c, c), 2 threshold key share, 3 identity (a + (-a))
 	arena    bool  // messages are consecutive sub-slices of one buffer (cap reaches into the next message)
 	sigArena bool
 	batch    []int // per batch list: 0 all valid, 1 wrong message, 2 identity key, 3.. wrong-length signature (0,47,49)
@@ -81,6 +82,8 @@ type world struct {
 	aggSig2   crypto.Signature
 	sigTable  []crypto.Signature // shared list for AggregateBLSSignatures: an identity signature before genuine ones
 	sigTableAgg crypto.Signature
+	packedSigs  []crypto.Signature // consecutive 48-byte sub-slices of ONE buffer (a packed wire format)
+	packedBuf   []byte
 	// ECDSA
 	esk  [2]crypto.PrivateKey
 	epk  [2]crypto.PublicKey
@@ -112,7 +115,7 @@ func drawRecipe(c *choice.Src) recipe {
 	rc := recipe{nk: 3 + c.Choose(2, "nkeys"), nm: 3 + c.Choose(3, "nmsgs")}
 	nd := c.Choose(3, "nderived")
 	for i := 0; i < nd; i++ {
-		rc.derived = append(rc.derived, c.Choose(3, "derived.kind"))
+		rc.derived = append(rc.derived, c.Choose(4, "derived.kind"))
 	}
 	rc.arena = c.Bool(1, 2, "msg.arena")
 	rc.sigArena = c.Bool(1, 2, "sig.arena")
@@ -183,6 +186,17 @@ func build(rc recipe, mat *material) (w *world, err error) {
 			all, err := crypto.AggregateBLSPublicKeys([]crypto.PublicKey{w.pks[a], w.pks[b], w.pks[c3]})
 			must(err)
 			pk, err := crypto.RemoveBLSPublicKeys(all, []crypto.PublicKey{w.pks[c3]})
+			must(err)
+			w.sks, w.pks = append(w.sks, sk), append(w.pks, pk)
+		case 3:
+			// the identity private key: sk_a + (r - sk_a). It signs (every signature is the identity
+			// point) and nothing verifies under its public key; a corner the listed operations accept
+			negB := curve.ScalarNeg(mat.baseSK[a])
+			neg, err := crypto.DecodePrivateKey(crypto.BLSBLS12381, negB)
+			must(err)
+			sk, err := crypto.AggregateBLSPrivateKeys([]crypto.PrivateKey{w.sks[a], neg})
+			must(err)
+			pk, err := crypto.AggregateBLSPublicKeys([]crypto.PublicKey{w.pks[a], neg.PublicKey()})
 			must(err)
 			w.sks, w.pks = append(w.sks, sk), append(w.pks, pk)
 		default:
@@ -256,6 +270,11 @@ func build(rc recipe, mat *material) (w *world, err error) {
 	w.sigTable = append([]crypto.Signature{w.sigs[0][0], crypto.Signature(idSig)}, one[1:]...)
 	w.sigTableAgg, err = crypto.AggregateBLSSignatures(cpSigs(w.sigTable))
 	must(err)
+	w.packedBuf = make([]byte, 48*nkeys)
+	for i := 0; i < nkeys; i++ {
+		copy(w.packedBuf[48*i:], w.sigs[i][0])
+		w.packedSigs = append(w.packedSigs, crypto.Signature(w.packedBuf[48*i:48*i+48])) // cap reaches into the next signature
+	}
 	// batch-verification lists (shared objects: the same list is handed to every call)
 	for bi, kind := range rc.batch {
 		bl := batchList{pks: append([]crypto.PublicKey(nil), w.pks...)}
@@ -334,6 +353,15 @@ func newMaterial(rc recipe, rnd *choice.Src) (mat *material, err error) {
 
 func cp(b []byte) []byte { return append(make([]byte, 0, len(b)), b...) }
 
+// scribble overwrites a result the harness has finished with: results belong to the caller,
+// so this must be invisible to every other call (a result that aliases library state, a pooled
+// buffer or another caller's result shows up as a differing later result).
+func scribble(b []byte) {
+	for i := range b {
+		b[i] ^= 0x5A
+	}
+}
+
 func cpSigs(l []crypto.Signature) []crypto.Signature {
 	o := make([]crypto.Signature, len(l))
 	for i := range l {
@@ -356,12 +384,20 @@ func (w *world) exec(o op, own hash.Hasher) (res string) {
 	ka, kb, ma, mb := o.a%nk, o.b%nk, o.a%nm, o.b%nm
 	switch o.name {
 	case "kmac.ComputeHash":
-		return hex.EncodeToString(w.rawKmac.ComputeHash(w.msgs[ma]))
+		h := w.rawKmac.ComputeHash(w.msgs[ma])
+		r := hex.EncodeToString(h)
+		scribble(h)
+		return r
 	case "blshasher.ComputeHash":
-		return hex.EncodeToString(w.kmac.ComputeHash(w.msgs[ma]))
+		h := w.kmac.ComputeHash(w.msgs[ma])
+		r := hex.EncodeToString(h)
+		scribble(h)
+		return r
 	case "bls.Sign":
 		s, err := w.sks[ka].Sign(w.msgs[mb], w.kmac)
-		return fmt.Sprintf("%x %v", []byte(s), err)
+		r := fmt.Sprintf("%x %v", []byte(s), err)
+		scribble(s)
+		return r
 	case "bls.Verify":
 		ok, err := w.pks[ka].Verify(w.sigs[ka][mb], w.msgs[mb], w.kmac)
 		return fmt.Sprint(ok, err)
@@ -387,15 +423,27 @@ func (w *world) exec(o op, own hash.Hasher) (res string) {
 	case "AggregateSignatures":
 		// not in the property's list by name, but what aggregate verification is built on: a pure
 		// function of a list that other tasks read at the same time
+		if o.b%2 == 1 {
+			s, err := crypto.AggregateBLSSignatures(w.packedSigs)
+			r := fmt.Sprintf("packed %x %v", []byte(s), err)
+			scribble(s)
+			return r
+		}
 		s, err := crypto.AggregateBLSSignatures(w.sigTable)
-		return fmt.Sprintf("%x %v", []byte(s), err)
+		r := fmt.Sprintf("%x %v", []byte(s), err)
+		scribble(s) // a result belongs to the caller: writing to it must not reach anybody else
+		return r
 	case "VerifyManyMessages":
 		ok, err := crypto.VerifyBLSSignatureManyMessages(w.manyKeys, w.manySig, w.manyMsgs, w.manyHs)
 		return fmt.Sprint(ok, err)
 	case "BatchVerify":
 		bl := w.batches[o.a%len(w.batches)]
 		ok, err := crypto.BatchVerifyBLSSignaturesOneMessage(bl.pks, bl.sigs, w.msgs[0], w.kmac)
-		return fmt.Sprint(ok, err)
+		r := fmt.Sprint(ok, err)
+		for i := range ok {
+			ok[i] = !ok[i]
+		}
+		return r
 	case "errorpath":
 		// the listed operations on inputs they must refuse: non-BLS key in a list, mismatched
 		// list lengths, a hasher of the wrong output size
@@ -406,7 +454,11 @@ func (w *world) exec(o op, own hash.Hasher) (res string) {
 		case 1:
 			bl := w.batches[o.a%len(w.batches)]
 			ok, err := crypto.BatchVerifyBLSSignaturesOneMessage(w.mixedKeys, bl.sigs, w.msgs[0], w.kmac)
-			return fmt.Sprint("batch.nonBLS ", ok, err != nil)
+			r := fmt.Sprint("batch.nonBLS ", ok, err != nil)
+			for i := range ok {
+				ok[i] = true // the caller re-uses the slice it was handed
+			}
+			return r
 		case 2:
 			ok, err := crypto.VerifyBLSSignatureManyMessages(w.manyKeys, w.manySig, w.manyMsgs[:len(w.manyMsgs)-1], w.manyHs)
 			return fmt.Sprint("many.mismatch ", ok, err != nil)
@@ -469,6 +521,10 @@ func (w *world) snapshot() string {
 		wr(k.Encode())
 	}
 	for _, sg := range w.sigTable {
+		wr(sg)
+	}
+	wr(w.packedBuf)
+	for _, sg := range w.packedSigs {
 		wr(sg)
 	}
 	for _, bl := range w.batches {
@@ -541,7 +597,7 @@ func (Engine) Run(c *choice.Src, o engine.Opt) (out engine.Out) {
 		out.Faults["shape.signatures_share_backing_array"]++
 	}
 	for _, k := range rc.derived {
-		out.Faults[[]string{"shape.key_aggregated", "shape.key_subtracted", "shape.key_threshold_share"}[k]]++
+		out.Faults[[]string{"shape.key_aggregated", "shape.key_subtracted", "shape.key_threshold_share", "shape.key_identity"}[k]]++
 	}
 	for _, k := range rc.batch {
 		out.Faults[[]string{"shape.batch_all_valid", "shape.batch_wrong_message", "shape.batch_identity_key", "shape.batch_empty_signature", "shape.batch_short_signature", "shape.batch_long_signature"}[k]]++
